@@ -374,6 +374,10 @@ pub(crate) fn finalize_insertion_ctx(insertion_ctx: &mut InsertionContext) {
     finalize_unassigned(insertion_ctx, UnassignmentInfo::Unknown);
 
     insertion_ctx.problem.goal.accept_solution_state(&mut insertion_ctx.solution);
+
+    // NOTE: a feature can add an empty route to give failed jobs another chance (e.g. rescheduled departure for
+    // tour duration limit): do not keep it if nothing was inserted
+    insertion_ctx.solution.remove_empty_routes();
 }
 
 pub(crate) fn apply_insertion_success(insertion_ctx: &mut InsertionContext, success: InsertionSuccess) {
